@@ -14,12 +14,12 @@ PLACEMENTS = {
     "trailing_expression": "vd :: fn do end\nf :: fn ->\n    CORE\nend\nstart :: fn do\n    f()\n    pr(1)\nend\n",
     "closure_body": "vd :: fn do end\nstart :: fn do\n    c :: fn do\n        y := CORE\n        pr(0)\n    end\n    c()\nend\n",
     "if_branch": "vd :: fn do end\nstart :: fn do\n    if 1 < 2 do\n        y := CORE\n    end\n    pr(0)\nend\n",
-    "else_branch": "vd :: fn do end\nstart :: fn do\n    if 1 < 2 do\n        pr(1)\n    else\n        y := CORE\n    end\n    pr(0)\nend\n",
+    "else_branch": "vd :: fn do end\nstart :: fn do\n    if 1 < 2 do\n        pr(1)\n    else\n        y := CORE\n        pr(3)\n    end\n    pr(0)\nend\n",
     "loop_body": "vd :: fn do end\nstart :: fn do\n    loop 1 < 2 do\n        y := CORE\n        break\n    end\nend\n",
     "call_argument": "vd :: fn do end\nstart :: fn do\n    pr(CORE)\nend\n",
     "after_return": "vd :: fn do end\nstart :: fn do\n    pr(1)\n    if 1 < 2 do\n        ret\n    end\n    ret\n    x := CORE\n    pr(2)\nend\n",
     "after_return_in_branch": "vd :: fn do end\nhalf :: fn c: bool -> int do\n    if c do\n        ret 1\n        y := CORE\n    end\n    ret 2\nend\nstart :: fn do\n    pr(half(true))\nend\n",
-    "case_arm": "vd :: fn do end\nEn :: enum\n    A int,\n    B,\nend\nstart :: fn do\n    case En.A 1 do\n        A v ->\n            y := CORE\n        end\n        else pr(2) end\n    end\n    pr(0)\nend\n",
+    "case_arm": "vd :: fn do end\nEn :: enum\n    A int,\n    B,\nend\nstart :: fn do\n    case En.A 1 do\n        A v ->\n            y := CORE\n            pr(3)\n        end\n        else pr(2) end\n    end\n    pr(0)\nend\n",
     "nested_closure_in_if_in_loop": "vd :: fn do end\nstart :: fn do\n    loop 1 < 2 do\n        if 1 < 2 do\n            c :: fn do\n                y := CORE\n                pr(0)\n            end\n            c()\n        end\n        break\n    end\nend\n",
 }
 NUM = ["int", "float"]
